@@ -9,6 +9,7 @@ func init() {
 		Explanation: "Structural necessary conditions of single-source SELECT semantics, each decided for all inputs by finite-domain abstract interpretation or exhaustiveness over closed enums. " +
 			"ABS3: Filter forwards a record iff its predicate is Boolean TRUE (cases TRUE/FALSE/NULL/non-Boolean/error). " +
 			"ABS4: both ORDER BY comparators order by the keys lexicographically honouring ASC/DESC multipliers, tie-break on the row values ascending and report equal rows as not-less (loop × reference-automaton product); with ABS1 (C09) and TypeIDNull = min(TypeID) this gives NULL-first. " +
+			"ABS2/ORD5: AND/OR are the Kleene fold for every arity and strict calls short-circuit on NULL (shared with C11). USERS: Distinct's hashmap pairs Compare-equality with the hash of the whole row (shared with C09). " +
 			"ABS5: Distinct and both ORDER BY multiset containers keep (item, count) consistently for count-before ∈ {0,1,2,≥3} × {add, retract}: count±1, item in the container iff count>0, and Distinct forwards the record exactly on 0→1 and 1→0. " +
 			"PAN5/UNI1: every switch over NodeType/ExpressionType in physical (Materialize, Transform*, variablesUsed) lists every constant of the enum and touches only the payload of its own arm.",
 		NotDecided: []string{"that parser.go builds the right plan shape for every query (WHERE above/below GROUP BY, alias resolution)", "expression evaluation results (C09/C11/C12/C13)", "the multiset equality itself, which quantifies over data"},
@@ -22,7 +23,16 @@ func runC01(c *core.Ctx) {
 	c.Rule("ABS5", "multiset containers: count bookkeeping and membership; Distinct emits on 0→1 / 1→0 only")
 	c.Rule("PAN5", "switches over plan enums are exhaustive")
 	c.Rule("UNI1", "inside case X only payload X is touched")
+	c.Rule("ABS2", "And/Or Evaluate equal the Kleene fold for every arity")
+	c.Rule("ORD5", "FunctionCall.Evaluate: NULL in a checked argument ⇒ NULL result")
+	c.Rule("USERS", "Distinct keys its rows with Compare-equality and Hash of the whole row")
 	checkFilter(c, ids)
+	checkKleene(c, ids, "And", "FALSE", "TRUE")
+	checkKleene(c, ids, "Or", "TRUE", "FALSE")
+	checkFunctionCall(c, ids)
+	if checkHashmapSites(c, map[string]bool{"execution/nodes.(*Distinct).Run": true}) != 1 {
+		c.Unknown("USERS", "execution/nodes.(*Distinct).Run/hashmap.New", 0, "hashmap site not found")
+	}
 	checkOrderByLess(c)
 	checkMultiset(c, "ABS5", msSite{rel: "execution/nodes", fn: "(*Distinct).Run", callback: true, countField: "Count", emit: "produce"}, ids)
 	checkMultiset(c, "ABS5", msSite{rel: "execution/nodes", fn: "(*OrderSensitiveTransform).Run", callback: true, countField: "Count"}, ids)
